@@ -19,7 +19,7 @@ def kind(ws):
     if t=='P': return "KPunct %s%%N"%ws[1]
     if t=='Q': return "KQuote "+("None" if ws[1]=='-' else "(Some %s)"%ws[1])
     if t=='D': return "KDecade"
-    if t=='N': return "KNumber %s%%N %s"%(ws[1],o(ws[2]))
+    if t=='N': return "KNumber %s%%N %s %s%%N %s"%(ws[1],o(ws[2]),ws[3],ws[4])
     if t=='S': return "KSpace "+ws[1]
     if t=='L': return "KNewline "+ws[1]
     return {'E':'KEmail','U':'KUrl','H':'KHostname','X':'KUnlintable','B':'KParagraphBreak','R':'KRegexish'}[t]
